@@ -95,6 +95,7 @@ func (x *Exec) bumpCounters(fr *Frame, st *State, key string, args []Value, argT
 	}
 	for _, tc := range x.counters {
 		if matchCallee(tc.Callee, key) {
+			x.matched[tc.Callee] = true
 			k := "cnt|" + tc.Name
 			x.heapSet(st, k, x.vc.Name(Add(x.heapGet(st, k, SInt), IntLit(1)), "cnt"))
 		}
@@ -102,6 +103,7 @@ func (x *Exec) bumpCounters(fr *Frame, st *State, key string, args []Value, argT
 	if x.contract != nil && len(x.inlineStack) == 0 {
 		for _, ac := range x.contract.AtCalls {
 			if matchCallee(ac.Callee, key) {
+				x.matched[ac.Callee] = true
 				var tvs []TV
 				for i, a := range args {
 					var t types.Type
